@@ -237,6 +237,9 @@ func exec(kind string, in []string) []string {
 	if kind == "stress" {
 		return execStress(in)
 	}
+	if kind == "tls" {
+		return execTLS(in)
+	}
 	if kind == "net" && len(in) == 4 {
 		return execNet(in)
 	}
